@@ -107,6 +107,29 @@ def run(rep, tier, seed):
         o = case_compress(b, pd, rule, DI.UP, klass='compress:large-variable-length')
         if o[0] == 'OK':
             case_decompress(b, o[1], rule, DI.UP, klass='roundtrip:large-variable-length', expect=b2s(pkt), side=rnd.choice([L, R]))
+    # packets whose computed fields sit on corner values or behind unusual next-header numbers, every computable field computed
+    from p_c09 import special_packets
+    from schc_run import parser_for
+    from schc_util import gen_rfd, COMPUTABLE
+    from microschc.rfc8724 import RuleDescriptor as _RD
+    rnd3 = rng_for(seed, 'C01-special')
+    for stack, pkt in special_packets(rnd3):
+        pd = parser_for(stack).parse(Buffer(pkt, len(pkt) * 8))
+        pd.direction = DI.UP
+        fds = [gen_rfd(rnd3, f, 'comp' if str(getattr(f.id, 'value', f.id)) in COMPUTABLE else rnd3.choice(['vs', 'ns', 'lsb', 'vsv']), DI.BIDIRECTIONAL) for f in pd.fields]
+        rule = _RD(id=mk(randbits(rnd3, rnd3.randint(1, 8))), field_descriptors=fds)
+        o = case_compress(b, pd, rule, None, klass='special-compute:compress')
+        if o[0] == 'OK':
+            case_decompress(b, o[1], rule, None, klass='special-compute:roundtrip', expect=b2s(pkt), side=rnd3.choice([L, R]))
+    # descriptors with EMPTY fields (a parser reports them: padding fields of zero length, an absent token) under every action, in front of
+    # other fields: a variable-length empty field is announced by the size 0, and the residues behind it stay aligned
+    from gens import synth_case, synth_pdesc, payload_variants
+    for i in range(200 if tier == 'quick' else 2000):
+        rule, vals = synth_case(rnd3, nfields=rnd3.randint(2, 6), sizes=[0, 0, 0, 1, 3, 8, 13, 16])
+        pd = synth_pdesc(rule, vals, payload_variants(rnd3))
+        o = case_compress(b, pd, rule, None, klass='empty-fields:compress')
+        if o[0] == 'OK' and isinstance(o[1], str) and is_lossless_for(n_pdesc(pd), n_rule(rule)):
+            case_decompress(b, o[1], rule, None, klass='empty-fields:roundtrip', expect=''.join(vals) + bits_of(pd.payload), side=rnd3.choice([L, R]))
     b.run()
     # two hosts: this process compresses, a fresh interpreter that has only the JSON text of the context decompresses (and the other way
     # round): the packet must come back, whatever this process has parsed, matched and compressed before
